@@ -363,8 +363,8 @@ func (c *Conn) Write(b []byte) (int, error) {
 	c.writeBuf = append(c.writeBuf, b...)
 	for len(c.writeBuf) >= 5 {
 		length := uint32(c.writeBuf[3])<<8 | uint32(c.writeBuf[4])
-		if length > 16384 {
-			return 0, fmt.Errorf("%w: record length %d > 16384", ErrDecodeError, length)
+		if max := maxRecordLength(c.writeBuf[0]); length > max {
+			return 0, fmt.Errorf("%w: record length %d > %d", ErrDecodeError, length, max)
 		}
 		sz := int(length) + 5
 		if sz > len(c.writeBuf) {
